@@ -95,7 +95,12 @@ def check_results(acc, n, edges, res, solver, case):
         want = sv.graph_state(n, sorted(renamed))
         if layout[0]:
             want = sv.tensor(want, sv.zero(layout[0]))
-        for outs, p, v, creg in gq.ref_branches(layout, prog):
+        try:
+            branches = gq.ref_branches(layout, prog)
+        except Exception as e:
+            acc.violation("generates", "AlternateTargetSolver.solve", "circuit-cannot-be-executed-by-the-reference", c2, "a circuit of the supported operations", repr(e)[:200])
+            continue
+        for outs, p, v, creg in branches:
             acc.transitions += 1
             if not sv.same_ray(v, want):
                 acc.violation("generates", "AlternateTargetSolver.solve", "circuit-does-not-generate-the-renamed-target", dict(c2, outcomes=list(outs)),
